@@ -1,6 +1,8 @@
 """C19  Multitaper estimates are weighted means of tapered periodograms."""
 import numpy as np
 
+import single
+
 import proto
 from common import gen_data, rel
 
@@ -171,7 +173,10 @@ KINDS = {
 }
 
 
+KINDS["single"] = single.kind("C19")
+
 def gen(rng, nrng, tier):
+    yield from single.gen("C19", nrng, tier)
     for i in range(6 if tier == "quick" else 60):
         cplx = bool(i % 2)
         N = int(nrng.integers(32, 100))
